@@ -158,6 +158,69 @@ func c09Header(w *World, r *Report) {
 			}
 		})
 	}
+	widthProblem := ""
+	if rc != nil && randLen < 0 {
+		// a formatted counter: strconv.Format{U,}int(x, B) left-padded to K characters is exactly K wide only if x < B^K
+		var fbase, padTo int64 = -1, -1
+		var farg ssa.Value
+		allInstrs(rc, func(in ssa.Instruction) {
+			if c, ok := in.(*ssa.Call); ok && (isPkgFunc(sCallee(c), "strconv", "FormatUint") || isPkgFunc(sCallee(c), "strconv", "FormatInt")) {
+				fbase, _ = constIntVal(c.Call.Args[1])
+				farg = c.Call.Args[0]
+			}
+			if b, ok := in.(*ssa.BinOp); ok && b.Op == token.LSS {
+				if v, ok := constIntVal(b.Y); ok {
+					if lc, ok := b.X.(*ssa.Call); ok {
+						if bi, ok := lc.Call.Value.(*ssa.Builtin); ok && bi.Name() == "len" {
+							padTo = v
+						}
+					}
+				}
+			}
+		})
+		if fbase > 1 && padTo > 0 && farg != nil {
+			// the largest value the argument can take: the narrowest unsigned type it went through, or a constant modulus
+			bound := int64(-1)
+			v := farg
+			for d := 0; d < 8 && v != nil; d++ {
+				switch x := v.(type) {
+				case *ssa.Convert:
+					if bt, ok := x.X.Type().Underlying().(*types.Basic); ok {
+						var lim int64 = -1
+						switch bt.Kind() {
+						case types.Uint8:
+							lim = 1 << 8
+						case types.Uint16:
+							lim = 1 << 16
+						case types.Uint32:
+							lim = 1 << 32
+						}
+						if lim > 0 && (bound < 0 || lim < bound) {
+							bound = lim
+						}
+					}
+					v = x.X
+				case *ssa.BinOp:
+					if x.Op == token.REM {
+						if m, ok := constIntVal(x.Y); ok && m > 0 && (bound < 0 || m < bound) {
+							bound = m
+						}
+					}
+					v = x.X
+				default:
+					v = nil
+				}
+			}
+			capacity := int64(1)
+			for i := int64(0); i < padTo; i++ {
+				capacity *= fbase
+			}
+			randLen = padTo
+			if bound < 0 || bound > capacity {
+				widthProblem = fmt.Sprintf("the cache-busting part is a number formatted in base %d and padded to %d characters, but the number ranges over %d values while %d characters hold only %d: beyond that the header is one character longer and the server strips the user id and the payload at the wrong offsets", fbase, padTo, bound, padTo, capacity)
+			}
+		}
+	}
 	// decoder: constants of the slice operations on req: first strip, then [0:2] and [2:]
 	var strips []int64
 	for _, g := range staticCone(decH, 2) {
@@ -203,6 +266,9 @@ func c09Header(w *World, r *Report) {
 	if randLen < 0 || len(strips) < 2 {
 		r.Undecided("R09.2", key, w.Pos(decH.Pos()), fmt.Sprintf("header constants not recognised (random part %d, strips %v)", randLen, strips))
 		return
+	}
+	if widthProblem != "" {
+		problems = append(problems, widthProblem)
 	}
 	if 1+randLen != strips[0] {
 		problems = append(problems, fmt.Sprintf("the encoder emits 1+%d header bytes but the decoder strips %d", randLen, strips[0]))
@@ -467,6 +533,31 @@ func c09Table(w *World, r *Report) {
 		}
 		return true
 	})
+	if alpha == "" {
+		// a number formatted by strconv in a base <= 36 (digits and lower-case letters), padded with constant characters
+		fbase := int64(-1)
+		pads := ""
+		inspectCalls(p.TypesInfo, rcDecl.Body, func(call *ast.CallExpr, callee *types.Func) {
+			if callee != nil && callee.Pkg() != nil && callee.Pkg().Path() == "strconv" && (callee.Name() == "FormatUint" || callee.Name() == "FormatInt") && len(call.Args) == 2 {
+				if v := constVal(p.TypesInfo, call.Args[1]); v != nil {
+					fbase, _ = constant.Int64Val(constant.ToInt(v))
+				}
+			}
+		})
+		ast.Inspect(rcDecl.Body, func(x ast.Node) bool {
+			if be, ok := x.(*ast.BinaryExpr); ok && be.Op == token.ADD {
+				for _, side := range []ast.Expr{be.X, be.Y} {
+					if sv, ok := constStr(p.TypesInfo, side); ok {
+						pads += sv
+					}
+				}
+			}
+			return true
+		})
+		if fbase >= 2 && fbase <= 36 {
+			alpha = "0123456789abcdefghijklmnopqrstuvwxyz"[:fbase] + pads
+		}
+	}
 	okA := alpha != ""
 	for i := 0; i < len(alpha); i++ {
 		c := alpha[i]
@@ -500,6 +591,8 @@ func checkC10(w *World, r *Report) {
 	c10Private(w, r)
 	c10NoWriteIntoCallerSlices(w, r)
 	c10NoPartialAnswerOnError(w, r)
+	r.Rule("R10.13", "the reassembly sorts the answer records by keys read from the records themselves (a comparator over a precomputed key slice does not follow the swaps)", 1)
+	ruleSortComparatorIndexesSortedSlice(w, r, "R10.13", func(p string) bool { return strings.HasPrefix(p, modPath+"/internal/streams/dns") })
 	r.Rule("R10.12", "answer records keep no recycled memory: what is taken from a sync.Pool is scratch space only (a record is packed after the wrapping function returned)", 1)
 	rulePoolMemoryStaysLocal(w, r, "R10.12", func(p string) bool { return strings.HasPrefix(p, modPath+"/internal/streams/dns") || strings.HasPrefix(p, modPath+"/internal/util/enc") })
 }
